@@ -2047,7 +2047,7 @@ func checkC06(c *ctx) {
 		"lines: assembled field by field from valid and boundary texts (hex/octal/binary/underscore integers, long CIGAR ops, = and * mates) with one in six mutated " +
 		"(dropped field, truncation, byte edits); aux and CIGAR texts also go to ParseAux/ParseCigar directly. reader: inputs of 0..6 lines of expressible records, " +
 		"LF/CRLF/mixed, with/without final newline, with header lines or without; a second stream adds empty, malformed and CR-only lines. " +
-		"BAM: batches of expressible records with 32-bit fields written and read back. Non-trivial: a record with a CIGAR, a sequence or an aux field / a line that parses / " +
+		"BAM: batches of expressible records with 32-bit fields written and read back (same lines), the aux block of each written record compared with an independent conformant encoder (SAMv1 4.2.4), and the memory form of every record compared with the model's toBam. Non-trivial: a record with a CIGAR, a sequence or an aux field / a line that parses / " +
 		"a reader input with at least one line; distinct = distinct case text."
 	x := &c06Run{c: c}
 	if c.replay != "" {
